@@ -8,9 +8,11 @@ import re
 from collections import namedtuple
 
 from ural.get_hostname import get_hostname
+from ural.patterns import ASCII
 from ural.utils import safe_urlsplit, pathsplit
 
-TWITTER_DOMAINS_RE = re.compile(r"(?:^|\.)(?:twitter|x)\.com$", re.I)
+# NOTE: ascii-only case folding, else "tw\u0131tter.com" (dotless i) is taken for twitter.com
+TWITTER_DOMAINS_RE = re.compile(r"(?:^|\.)(?:twitter|x)\.com$", re.I | ASCII)
 TWITTER_FRAGMENT_ROUTING_RE = re.compile(r"^!/?")
 TWITTER_SCREEN_NAME_BLACKLIST = {
     "explore",
